@@ -109,6 +109,7 @@ func RunCase(t *rapid.T, pd *PropDef, st *RunStats, known map[string]bool) {
 		}
 	}
 	g := &Gen{P: pd.Profile, It: it}
+	g.DrawHot(t)
 	n := rapid.IntRange(pd.Profile.MinOps, pd.Profile.MaxOps).Draw(t, "nops")
 	g.N = n
 	var ops []Op
